@@ -110,6 +110,7 @@ func formatArrayTypeName(v string) string {
 func ExtractValue(v reflect.Value, extractor ValueExtractor) {
 	// look through pointers and interface values; a nil pointer still contributes the
 	// types its static element type can contain
+	var seen map[uintptr]struct{}
 	for v.IsValid() && (v.Kind() == reflect.Ptr || v.Kind() == reflect.Interface) {
 		if v.IsNil() {
 			if v.Kind() == reflect.Interface {
@@ -117,6 +118,16 @@ func ExtractValue(v reflect.Value, extractor ValueExtractor) {
 			}
 			v = reflect.New(UnpackPtrType(v.Type())).Elem()
 			break
+		}
+		if v.Kind() == reflect.Ptr {
+			// a chain of pointers and interface values may lead back to itself (x = &x)
+			if _, ok := seen[v.Pointer()]; ok {
+				return
+			}
+			if seen == nil {
+				seen = make(map[uintptr]struct{})
+			}
+			seen[v.Pointer()] = struct{}{}
 		}
 		v = v.Elem()
 	}
